@@ -1365,3 +1365,182 @@ def handled_variants(b, enum_suffix):
             if x != t["else"] and str(v) in names:
                 out.add(names[str(v)])
     return out
+
+
+# ----------------------------------------------------------------------------- tables kept in data
+
+def _cell(x):
+    """one decoded cell of a table row: ('bytes', b) | ('int', n) | ('fn', path) | ('static', path) | ('raw', b) | ('?', None)"""
+    if not isinstance(x, dict):
+        return ("?", None)
+    if "bytes" in x:
+        return ("bytes", bytes.fromhex(x["bytes"]))
+    if "int" in x:
+        return ("int", int(x["int"]))
+    if "fn" in x:
+        return ("fn", x["fn"])
+    if "static" in x:
+        return ("static", x["static"])
+    if "raw" in x:
+        return ("raw", bytes.fromhex(x["raw"]))
+    return ("?", None)
+
+
+def table_rows(F, k):
+    """rows of the table kept in data that the constant k denotes: [[cell, ..], ..]; None when k is no table of tuples / structs."""
+    from mir import table_value
+    v = table_value(F, k)
+    if not isinstance(v, dict) or "arr" not in v:
+        return None
+    rows = []
+    for r in v["arr"]:
+        if not isinstance(r, dict) or "tup" not in r:
+            return None
+        rows.append([_cell(c) for c in r["tup"]])
+    return rows
+
+
+def _table_const_behind(b, o, depth=10):
+    """the table constant an operand denotes, through copies, borrows, unsizing, `iter()` / `as_slice()` / `into_iter()`."""
+    for _ in range(depth):
+        k = op_const(o)
+        if k is not None:
+            return k if ("table" in k or "static" in k or k.get("def")) else None
+        p = op_place(o)
+        if p is None:
+            return None
+        d = b.single_def(p["l"])
+        if d is None:
+            return None
+        if d[2] == "rv" and d[3]["k"] in ("use", "cast"):
+            o = d[3]["o"]
+        elif d[2] == "rv" and d[3]["k"] == "ref":
+            o = {"c": {"l": d[3]["p"]["l"], "p": []}}
+        elif d[2] == "call" and d[3]["args"] and (d[3]["f"].get("fn") or "").rsplit("::", 1)[-1] in ("iter", "as_slice", "into_iter", "deref", "as_ref", "borrow"):
+            o = d[3]["args"][0]
+        else:
+            return None
+    return None
+
+
+def table_lookups(F, b):
+    """`TABLE.iter().find(|row| row.K == key)` over a table kept in data: [{call, rows, key_field, key ('upvar', i) / ('other', None),
+    closure}].  The result of the call is Option<&row>; `lookup_field(b, operand, lk)` says which field of the found row an
+    operand denotes."""
+    out = []
+    for c in b.calls:
+        if not re.search(r"iter::Iterator::(find|position)$", c.fn or "") or len(c.args) != 2:
+            continue
+        k = _table_const_behind(b, c.args[0])
+        rows = table_rows(F, k) if k is not None else None
+        if rows is None:
+            continue
+        cd = b.def_rv(c.args[1])
+        if not (cd and cd[2] == "rv" and cd[3]["k"] == "agg" and cd[3]["kind"].get("a") == "closure"):
+            continue
+        cb = F.bodies.get(cd[3]["kind"]["def"])
+        if cb is None:
+            continue
+        kf, key = None, ("other", None)
+        cmps = []
+        for bi, si, st_ in cb.stmts():
+            rv = st_.get("rv")
+            if rv and rv["k"] == "bin" and rv["op"] == "Eq":
+                cmps.append((rv["a"], rv["b"]))
+        for cc in cb.calls:
+            if re.search(r"cmp::PartialEq::(eq|ne)$", cc.fn or "") and len(cc.args) == 2:
+                cmps.append((cc.args[0], cc.args[1]))
+        for a_, b_ in cmps:
+            sides = []
+            for o_ in (a_, b_):
+                q = op_place(o_)
+                rp = cb.root_place(q, through_names=True) if q is not None else None
+                sides.append(rp)
+            for i in (0, 1):
+                rp, other = sides[i], sides[1 - i]
+                if rp is not None and rp["l"] == cb.argc:
+                    fl = [e["f"] for e in rp["p"] if isinstance(e, dict) and "f" in e]
+                    if len(fl) == 1:
+                        kf = fl[0]
+                        # the other side: a captured value, possibly behind a deref / an index (`c[0]` of a captured slice)
+                        cur = other
+                        for _h in range(6):
+                            if cur is None or cur["l"] == 1:
+                                break
+                            d_ = cb.single_def(cur["l"])
+                            if d_ and d_[2] == "call" and d_[3]["args"] and (d_[3]["f"].get("fn") or "").rsplit("::", 1)[-1] in ("deref", "as_slice", "as_ref", "index", "borrow"):
+                                q_ = op_place(d_[3]["args"][0])
+                                cur = cb.root_place(q_, through_names=True) if q_ is not None else None
+                            else:
+                                break
+                        if cur is not None and cur["l"] == 1:
+                            ofl = [e["f"] for e in cur["p"] if isinstance(e, dict) and "f" in e]
+                            key = ("upvar", ofl[0] if ofl else None)
+        if kf is None:
+            continue
+        keyop = None
+        if key[0] == "upvar" and key[1] is not None and key[1] < len(cd[3]["ops"]):
+            keyop = cd[3]["ops"][key[1]]
+        out.append({"call": c, "rows": rows, "key_field": kf, "key": key, "key_operand": keyop, "closure": cb})
+    return out
+
+
+def lookup_field(b, o, lk):
+    """the field index of the found row that operand o denotes (through `Some(&(_, x))` patterns, `?`, ok_or, copies), else None."""
+    q = op_place(o)
+    if q is None:
+        return None
+    rp = b.root_place(q, through_names=True)
+    dest = lk["call"].dest["l"]
+    cur = rp
+    for _ in range(8):
+        if cur["l"] == dest:
+            fl = [e["f"] for e in cur["p"] if isinstance(e, dict) and "f" in e and not e.get("adt", "").endswith(("Some", "Ok", "Continue"))]
+            # projections: (as Some).0 -> * -> .j ; the payload field of Some/Ok/Continue is not a row field
+            fr = [e for e in cur["p"] if isinstance(e, dict) and "f" in e]
+            rowf = [e["f"] for e in fr if not (e.get("adt") or "").split("::")[-1] in ("Some", "Ok", "Continue")]
+            return rowf[-1] if rowf else None
+        d = b.single_def(cur["l"])
+        if d is None or d[2] != "call" or not d[3]["args"]:
+            return None
+        short = (d[3]["f"].get("fn") or "").rsplit("::", 1)[-1]
+        if short not in ("branch", "ok_or", "ok_or_else", "unwrap", "expect", "copied", "cloned", "map"):
+            return None
+        q2 = op_place(d[3]["args"][0])
+        if q2 is None:
+            return None
+        r2 = b.root_place(q2, through_names=True)
+        cur = {"l": r2["l"], "p": list(r2["p"]) + list(cur["p"])}
+    return None
+
+
+def table_dispatch_calls(F, b):
+    """calls through a function pointer taken from the found row of a table lookup: [(callsite, lookup, field index)]"""
+    out = []
+    lks = table_lookups(F, b)
+    if not lks:
+        return out
+    for c in b.calls:
+        if not c.ind:
+            continue
+        for lk in lks:
+            j = lookup_field(b, c.f["ind"], lk)
+            if j is not None:
+                out.append((c, lk, j))
+    return out
+
+
+def fn_behind(F, path, depth=3):
+    """the crate-local function a table cell's function stands for: itself, or (a closure / shim that only forwards) the one
+    crate-local function it calls."""
+    for _ in range(depth):
+        b = F.bodies.get(path)
+        if b is None:
+            return path
+        if b.kind != "Closure":
+            return path
+        loc = [c for c in b.calls if c.local and c.name in F.bodies]
+        if len(loc) != 1:
+            return path
+        path = loc[0].name
+    return path
